@@ -97,9 +97,10 @@ Section Writer.
   Definition w_can_submit (n : nat) (h : bool) : bool := n <? P.
 
   Definition w_init (ops : list op) : st blk (sink chunk) := init sink0 (stage ops).
-  Definition w_step := step frame_of (write_frame fail_at) serr w_can_submit P.
+  Definition w_ready (b : blk) : bool := false.   (* every block gets a compress task *)
+  Definition w_step := step frame_of w_ready (write_frame fail_at) serr w_can_submit P.
   Definition w_run (ops : list op) (sched : list act) : st blk (sink chunk) :=
-    run frame_of (write_frame fail_at) serr w_can_submit P sink0 (stage ops) sched.
+    run frame_of w_ready (write_frame fail_at) serr w_can_submit P sink0 (stage ops) sched.
   Definition w_final (s : st blk (sink chunk)) : bool := final serr s.
 
   (* after the channel is closed the writer thread appends the EOF marker unless it already failed;
@@ -146,7 +147,7 @@ Definition wobs (k : sink sym_chunk) : list blk * bool * nat * bool :=
 Definition c03_writer_model (P : nat) (fail_at : option nat) (ops : list op) (rel : list nat)
   : option (list blk * bool * nat * bool) :=
   let xs := stage ops in
-  let '(s, _) := drive sym_frame (write_frame fail_at) serr (w_can_submit P) P
+  let '(s, _) := drive sym_frame w_ready (write_frame fail_at) serr (w_can_submit P) P
                        (5 * length xs + 1) (init sink0 xs) rel in
   if final serr s then Some (wobs (finish_sink sym_chunk sym_eof fail_at (cs s))) else None.
 
